@@ -185,7 +185,7 @@ Fixpoint read_eol (n : nat) (st : lexer) : res (str * lexer) :=
     else cons_res (ch st) (read_eol n' (read_char st))
   end.
 
-(* readMultiComment: up to and including the closing star-slash, or the end of input *)
+(* the loop of readMultiComment: up to and including the closing star-slash, or the end of input *)
 Fixpoint read_multi (n : nat) (st : lexer) : res (str * lexer) :=
   match n with
   | O => OutOfFuel
@@ -195,6 +195,13 @@ Fixpoint read_multi (n : nat) (st : lexer) : res (str * lexer) :=
       let st1 := read_char st in OK ([ch st; ch st1], st1)
     else cons_res (ch st) (read_multi n' (read_char st))
   end.
+
+(* readMultiComment proper: the opener slash-star is consumed first, so that its star cannot
+   serve as the star of the closer *)
+Definition read_multi_comment (n : nat) (st : lexer) : res (str * lexer) :=
+  let st1 := read_char st in
+  let st2 := read_char st1 in
+  cons_res (ch st) (cons_res (ch st1) (read_multi n st2)).
 
 (* readExponent: marker, optional sign, decimal digits *)
 Definition read_exponent (n : nat) (st : lexer) : res (str * lexer) :=
@@ -358,7 +365,7 @@ Definition lex_slash (n : nat) (st : lexer) (ln i : N) : res (token * lexer) :=
   else if p =? 47 then
     do (l, st1) <- read_eol n st; finish (mkTok T_COMMENT l ln i) st1
   else if p =? 42 then
-    do (l, st1) <- read_multi n st; finish (mkTok T_COMMENT l ln i) st1
+    do (l, st1) <- read_multi_comment n st; finish (mkTok T_COMMENT l ln i) st1
   else single st ln i T_SLASH.
 
 Definition lex_bang (st : lexer) (ln i : N) : res (token * lexer) :=
